@@ -403,6 +403,22 @@ impl ops::Sub<RealSemiring> for RealSemiring {"""),
             })
             .filter(|l| !l.get_vars().is_empty())
             .collect();"""),
+    dict(name="mk-cond-memo-stores-unadjusted", file=B, rule="MK", props=["C01"], expect="MK1",
+         old="""                if bdd.is_neg() {
+                    cache.insert(bdd, res.neg());
+                } else {
+                    cache.insert(bdd, res);
+                }""",
+         new="""                cache.insert(bdd, res);"""),
+    dict(name="mk-cond-memo-keyed-by-node-unadjusted", file=B, rule="MK", props=["C01"], expect="MK",
+         old="""                match cache.get(&bdd) {
+                    None => (),
+                    Some(v) => return if bdd.is_neg() { v.neg() } else { *v },
+                };""",
+         new="""                match cache.get(&bdd) {
+                    None => (),
+                    Some(v) => return *v,
+                };"""),
     dict(name="law-eu-choose-smaller", file="src/util/semirings/expectation.rs", rule="LAW", props=["C13"], expect="ExpectedUtility:choose",
          old="""impl BBSemiring for ExpectedUtility {
     fn choose(&self, arg: &ExpectedUtility) -> ExpectedUtility {
